@@ -1,10 +1,20 @@
-(* C06 / finding F21: service/system_analysis_service.go:921-955 (calculateMaxDepth / calculateDepthFromModule)
-   computes the longest simple path by backtracking.  Model: [depth_from] returns the depth and the number of calls.
-   On the complete DAG with n modules (module i imports every module j > i) the number of calls from module 0
-   is at least 2^(n-1): the running time is not proportional to the input size. *)
+(* C06 (time clause) — service/system_analysis_service.go: calculateMaxDepth, acyclicChainHeights,
+   calculateDepthFromModule.  MODEL ONLY (the proofs are in DepthCostProofs.v).
+
+   Modules are numbers, [succ m] lists the dependencies of m (Go: node.Dependencies, a map: any order), [nodes] lists
+   graph.Nodes (a map: any order).  Every function returns its result together with the number of calls it made.
+
+   * [depth_from] / [max_depth]: the enumeration of simple paths.  This was the whole of calculateDepthFromModule before
+     finding F21 was repaired (2^(n-1) calls on a complete DAG of n modules: [depth_exponential]); it is kept as the
+     definition of the VALUE, and it is still what the code does for a module from which an import cycle can be reached.
+   * [visit] / [acyclic_chain_heights]: the new helper acyclicChainHeights — a depth-first walk that settles a module once all
+     its dependencies are settled and records the length of the longest chain below it, or that it reaches a cycle.
+   * [depth_from_new] / [max_depth_new]: calculateDepthFromModule / calculateMaxDepth as they now are: a module with a
+     recorded height returns currentDepth + height at once. *)
 From Coq Require Import List Arith Lia Bool.
 Import ListNotations.
 
+(* ---- enumeration of simple paths (value definition; the code before the repair) ---- *)
 Fixpoint depth_from (fuel : nat) (succ : nat -> list nat) (visited : list nat) (cur d : nat) : nat * nat :=
   match fuel with
   | O => (d, 1)
@@ -15,60 +25,102 @@ Fixpoint depth_from (fuel : nat) (succ : nat -> list nat) (visited : list nat) (
         (fold_left Nat.max (map fst rs) d, 1 + list_sum (map snd rs))
   end.
 
-(* calculateMaxDepth: maximum over all modules (as a list in arbitrary order), fresh visited set each time *)
+(* maximum over all modules (as a list in arbitrary order), fresh visited set each time *)
 Definition max_depth (succ : nat -> list nat) (nodes : list nat) : nat :=
   fold_left Nat.max (map (fun m => fst (depth_from (S (length nodes)) succ [] m 0)) nodes) 0.
 
-Definition complete_succ (n : nat) (i : nat) : list nat := seq (S i) (n - 1 - i).
+(* ---- acyclicChainHeights ---- *)
+(* the int stored in the Go map: inProgress = -1, reachesCycle = -2, a height >= 0 *)
+Inductive mark := InProgress | ReachesCycle | Height (h : nat).
+Definition marks := list (nat * mark).            (* the Go map heights; a later write shadows the earlier one *)
 
-Lemma pow2_pos m : 1 <= 2 ^ m.
-Proof. induction m; simpl; lia. Qed.
+Fixpoint find_mark (st : marks) (m : nat) : option mark :=
+  match st with
+  | [] => None
+  | (x, k) :: r => if Nat.eqb x m then Some k else find_mark r m
+  end.
 
-Lemma list_sum_le {A} (g h : A -> nat) l : (forall x, In x l -> g x <= h x) -> list_sum (map g l) <= list_sum (map h l).
-Proof.
-  induction l as [|a l IH]; simpl; intro H; [lia|].
-  pose proof (H a (or_introl eq_refl)). assert (list_sum (map g l) <= list_sum (map h l)) by (apply IH; intros; apply H; right; assumption). lia.
-Qed.
+(* if below < 0 || height < 0 { height = reachesCycle } else if below+1 > height { height = below + 1 } *)
+Definition step (height below : mark) : mark :=
+  match height, below with
+  | Height a, Height b => Height (Nat.max a (S b))
+  | _, _ => ReachesCycle
+  end.
 
-(* sum_{j = c+1}^{c+m} 2^(c+m-j) = 2^m - 1 *)
-Lemma pow_sum c m : list_sum (map (fun j => 2 ^ (c + m - j)) (seq (S c) m)) = 2 ^ m - 1.
-Proof.
-  revert c. induction m as [|m IH]; intro c; simpl; [reflexivity|].
-  replace (c + S m - S c) with m by lia.
-  assert (E : map (fun j => 2 ^ (c + S m - j)) (seq (S (S c)) m) = map (fun j => 2 ^ (S c + m - j)) (seq (S (S c)) m)).
-  { apply map_ext. intro j. f_equal. lia. }
-  rewrite E, IH. pose proof (pow2_pos m). lia.
-Qed.
+Record vres := mk_vres { v_st : marks; v_mark : mark; v_cost : nat }.
 
-Lemma visited_below_not_found cur visited :
-  (forall v, In v visited -> v < cur) -> existsb (Nat.eqb cur) visited = false.
-Proof.
-  intro H. destruct (existsb (Nat.eqb cur) visited) eqn:E; [|reflexivity].
-  apply existsb_exists in E. destruct E as (v & Hv & Heq). apply Nat.eqb_eq in Heq. subst. specialize (H _ Hv). lia.
-Qed.
+Definition visit_step (vis : marks -> nat -> vres) (a : vres) (dep : nat) : vres :=
+  let r := vis (v_st a) dep in
+  mk_vres (v_st r) (step (v_mark a) (v_mark r)) (v_cost a + v_cost r).
 
-Lemma calls_lower n : forall k cur fuel visited d,
-  cur + k = n - 1 -> cur < n -> k < fuel -> (forall v, In v visited -> v < cur) ->
-  2 ^ k <= snd (depth_from fuel (complete_succ n) visited cur d).
-Proof.
-  induction k as [k IH] using lt_wf_ind. intros cur fuel visited d Hk Hlt Hf Hv.
-  destruct fuel as [|f]; [lia|]. simpl. rewrite (visited_below_not_found _ _ Hv). simpl.
-  change (complete_succ n cur) with (seq (S cur) (n - 1 - cur)). replace (n - 1 - cur) with k by lia.
-  rewrite map_map.
-  assert (L : list_sum (map (fun j => 2 ^ (cur + k - j)) (seq (S cur) k)) <=
-              list_sum (map (fun x => snd (depth_from f (complete_succ n) (cur :: visited) x (S d))) (seq (S cur) k))).
-  { apply list_sum_le. intros j Hj. apply in_seq in Hj.
-    apply (IH (cur + k - j)); try lia.
-    intros v Hin. destruct Hin as [E|Hin]; [ subst v; destruct Hj; lia | pose proof (Hv _ Hin); destruct Hj; lia ]. }
-  rewrite pow_sum in L. pose proof (pow2_pos k). lia.
-Qed.
+(* the closure visit; out of fuel (never on a graph whose imports stay inside [nodes], fuel > number of modules)
+   answers "reaches a cycle" without recording anything, which only makes the caller fall back to the enumeration *)
+Fixpoint visit (fuel : nat) (succ : nat -> list nat) (st : marks) (m : nat) : vres :=
+  match fuel with
+  | O => mk_vres st ReachesCycle 1
+  | S f =>
+      match find_mark st m with
+      | Some k => mk_vres st k 1
+      | None =>
+          let a := fold_left (visit_step (visit f succ)) (succ m) (mk_vres ((m, InProgress) :: st) (Height 0) 1) in
+          mk_vres ((m, v_mark a) :: v_st a) (v_mark a) (v_cost a)
+      end
+  end.
 
-Theorem depth_exponential n : 1 <= n ->
-  2 ^ (n - 1) <= snd (depth_from (S n) (complete_succ n) [] 0 0).
-Proof.
-  intro H. apply (calls_lower n (n - 1) 0); try lia. intros v [].
-Qed.
+(* for name := range graph.Nodes { visit(name) } *)
+Definition visit_all_step (fuel : nat) (succ : nat -> list nat) (sc : marks * nat) (m : nat) : marks * nat :=
+  let r := visit fuel succ (fst sc) m in (v_st r, snd sc + v_cost r).
+Definition visit_all (fuel : nat) (succ : nat -> list nat) (nodes : list nat) : marks * nat :=
+  fold_left (visit_all_step fuel succ) nodes ([], 0).
 
-(* the input (modules + edges of the complete DAG) has size n + n(n-1)/2; e.g. 26 modules: 351 import edges, >= 2^25 calls *)
-Example depth_26 : 2 ^ 25 <= snd (depth_from 27 (complete_succ 26) [] 0 0).
-Proof. apply (depth_exponential 26). lia. Qed.
+(* the entries that are left after the negative ones are deleted *)
+Definition hval (st : marks) (m : nat) : option nat :=
+  match find_mark st m with
+  | Some (Height h) => Some h
+  | _ => None
+  end.
+
+Definition acyclic_chain_heights (succ : nat -> list nat) (nodes : list nat) : (nat -> option nat) * nat :=
+  let sc := visit_all (S (length nodes)) succ nodes in (hval (fst sc), snd sc).
+
+(* ---- calculateDepthFromModule / calculateMaxDepth as they now are ---- *)
+Fixpoint depth_from_new (fuel : nat) (ht : nat -> option nat) (succ : nat -> list nat) (visited : list nat) (cur d : nat)
+  : nat * nat :=
+  match fuel with
+  | O => (d, 1)
+  | S f =>
+      if existsb (Nat.eqb cur) visited then (d, 1)
+      else
+        match ht cur with
+        | Some h => (d + h, 1)
+        | None =>
+            let rs := map (fun dep => depth_from_new f ht succ (cur :: visited) dep (S d)) (succ cur) in
+            (fold_left Nat.max (map fst rs) d, 1 + list_sum (map snd rs))
+        end
+  end.
+
+Definition max_depth_new (succ : nat -> list nat) (nodes : list nat) : nat :=
+  let ht := fst (acyclic_chain_heights succ nodes) in
+  fold_left Nat.max (map (fun m => fst (depth_from_new (S (length nodes)) ht succ [] m 0)) nodes) 0.
+
+(* calls of visit + calls of calculateDepthFromModule made by one calculateMaxDepth *)
+Definition max_depth_steps (succ : nat -> list nat) (nodes : list nat) : nat :=
+  let hc := acyclic_chain_heights succ nodes in
+  snd hc + list_sum (map (fun m => snd (depth_from_new (S (length nodes)) (fst hc) succ [] m 0)) nodes).
+
+(* the same count for the enumeration alone *)
+Definition max_depth_steps_enum (succ : nat -> list nat) (nodes : list nat) : nat :=
+  list_sum (map (fun m => snd (depth_from (S (length nodes)) succ [] m 0)) nodes).
+
+(* ---- graphs used in statements ---- *)
+Definition complete_succ (n : nat) (i : nat) : list nat := seq (S i) (n - 1 - i).          (* complete DAG: i imports every j > i *)
+Definition clique_succ (n : nat) (i : nat) : list nat := filter (fun j => negb (Nat.eqb i j)) (seq 0 n).   (* everyone imports everyone *)
+Definition edge_count (succ : nat -> list nat) (nodes : list nat) : nat := list_sum (map (fun m => length (succ m)) nodes).
+
+(* well-formedness: the dependencies of a module of the graph are modules of the graph (AddDependency guarantees it) *)
+Definition closed (succ : nat -> list nat) (nodes : list nat) : Prop :=
+  forall m s, In m nodes -> In s (succ m) -> In s nodes.
+
+(* acyclic: the modules can be numbered so that every import goes to a smaller number *)
+Definition ranked (succ : nat -> list nat) (nodes : list nat) (rank : nat -> nat) : Prop :=
+  closed succ nodes /\ (forall m s, In m nodes -> In s (succ m) -> rank s < rank m) /\ (forall m, In m nodes -> rank m < length nodes).
